@@ -298,6 +298,8 @@ let run_case (toks : string list) : string =
        | "commit" -> w r_commit sh (t_opt_list (a 1)) (scalar_draws draws)
        | "dvc" -> w r_dvc sh (t_opt_bytes (a 1)) (nat_of_int (int_of_string (a 2)))
        | "blindsign" -> w r_blindsign sh (t_bytes (a 1)) (t_bytes (a 2)) (t_opt_bytes (a 3)) (t_opt_bytes (a 4)) (t_opt_list (a 5))
+       | "prep" -> w r_prep sh (t_opt_list (a 1)) (t_opt_list (a 2)) (nat_of_int (int_of_string (a 3)))
+                    (nat_of_int (int_of_string (a 4))) (t_opt_bytes (a 5)) (t_opt_bytes (a 6))
        | "blindverify" -> w r_blindverify sh (t_bytes (a 1)) (t_bytes (a 2)) (t_opt_bytes (a 3)) (t_opt_list (a 4))
                             (t_opt_list (a 5)) (t_opt_bytes (a 6))
        | "blindproofgen" -> w r_blindproofgen sh (t_bytes (a 1)) (t_bytes (a 2)) (t_opt_bytes (a 3)) (t_opt_bytes (a 4))
